@@ -227,7 +227,7 @@ def one_layer(ctx: Ctx, geom, ml, c, group, gs, integer_bank, with_model=True, p
 PADKINDS = ["none", "TORUS", "SAME", "VALID", "int", "explicit"]
 
 
-def gen_opts(rng, D, axis_free: bool, kind=None):
+def gen_opts(rng, D, axis_free: bool, kind=None, force_ld=False):
     """options inside the hypotheses of the theorem: unit stride, the same padding on both sides of
     every axis; options that do not distinguish the axes unless the group has no axis exchange"""
     kind = str(rng.choice(PADKINDS)) if kind is None else kind
@@ -248,7 +248,11 @@ def gen_opts(rng, D, axis_free: bool, kind=None):
     r = rng.random()
     if r < 0.45:
         o["rhs_dilation"] = [int(rng.integers(1, 3)) for _ in range(D)] if axis_free and rng.random() < 0.5 else int(rng.integers(1, 3))
-    if literal and rng.random() < 0.5:
+    # image dilation (transposed convolution): with literal padding half of the time, with the string /
+    # default paddings a quarter of the time (the code warns there but computes a symmetric padding)
+    if force_ld:
+        o["lhs_dilation"] = [2] * D
+    elif rng.random() < (0.5 if literal else 0.25):
         if axis_free and rng.random() < 0.5:
             o["lhs_dilation"] = [int(rng.integers(1, 3)) for _ in range(D)]
         else:
@@ -256,11 +260,11 @@ def gen_opts(rng, D, axis_free: bool, kind=None):
     return kind, o
 
 
-def gen_case(ctx: Ctx, D, bank, types, axis_free, nmax, bias, kind=None):
+def gen_case(ctx: Ctx, D, bank, types, axis_free, nmax, bias, kind=None, force_ld=False):
     rng = ctx.rng
     in_sig = L.gen_sig(rng, types, nmax)
     target = L.gen_sig(rng, types, nmax)
-    kind, opts = gen_opts(rng, D, axis_free, kind)
+    kind, opts = gen_opts(rng, D, axis_free, kind, force_ld)
     rd = L.per_axis(D, opts.get("rhs_dilation"))
     ld = L.per_axis(D, opts.get("lhs_dilation"))
     if rng.random() < 0.5:
@@ -276,7 +280,9 @@ def gen_case(ctx: Ctx, D, bank, types, axis_free, nmax, bias, kind=None):
             while (N[j] - 1) * ld[j] + 1 < need:
                 N[j] += 1
     torus = [bool(rng.integers(0, 2)) for _ in range(D)]
-    if kind in ("none", "TORUS") and not any(torus):
+    if force_ld and kind == "none":
+        torus = [False] * D  # default padding on a non-toroidal image resolves to SAME: transposed conv + SAME
+    elif kind in ("none", "TORUS") and not any(torus):
         torus[int(rng.integers(D))] = True  # so that the translation clause is exercised
     present = list(in_sig)
     order = [int(i) for i in rng.permutation(len(present))]
@@ -323,7 +329,7 @@ def run(ctx: Ctx):
         "weights and non-zero integer biases set through eqx.tree_at; signatures = random subsets (1-3 types) of "
         "{(k,p): k<=2} (k<=1 for the smaller banks) in random order with unequal channel counts; the five bias settings "
         "in turn; padding kinds default/TORUS/SAME/VALID/integer/explicit equal pairs; filter dilation 1-2; image "
-        "dilation 1-2 with literal padding; per-axis different options only for C2^d; random torus flags (travel with "
+        "dilation 1-2 with literal padding (and, less often, with the string / default paddings; always twice with SAME / default on a non-toroidal image); per-axis different options only for C2^d; random torus flags (travel with "
         "the image); square and non-square extents 3-5; every element of the group (B_3 quick: 12 seeded elements incl. "
         "a reflection and an axis exchange); cyclic shifts on toroidal inputs. Non-trivial: non-empty non-zero output "
         "and at least one non-identity element. Distinct = distinct (layer configuration, weights, biases, input)."
@@ -362,7 +368,13 @@ def run(ctx: Ctx):
         for i in range(n):
             bias = BIASES[k % len(BIASES)]
             k += 1
-            c = gen_case(ctx, D, bank, types, axis_free, nmax, bias, kind=PADKINDS[(k * 5 + k // 6) % 6])
+            kind = PADKINDS[(k * 5 + k // 6) % 6]
+            # two layers of every run: image dilation 2 with the string padding SAME / the default on a
+            # non-toroidal image (the code warns but must stay symmetric)
+            force_ld = name == "B" and D == 2 and i in (2, 5)
+            if force_ld:
+                kind = "SAME" if i == 2 else "none"
+            c = gen_case(ctx, D, bank, types, axis_free, nmax, bias, kind=kind, force_ld=force_ld)
             gs = gs_all
             if subset is not None and len(gs_all) > subset:
                 gs = [np.eye(D, dtype=np.int64)] + equiv.group_subset(D, ctx.rng, subset - 1)
